@@ -6,7 +6,7 @@ import random
 from .. import boot, netsim
 
 dbsim = dbtypes = None  # imported after boot.init() (they import dawgie)
-from ..result import Result, h64
+from ..result import Result, h64, keep_going
 
 ID = 'C06'
 LEVEL = 'exploration'
@@ -197,7 +197,7 @@ def run_shard(spec):
     sim = get_sim()
     n = 0
     # at least 6 histories per shard even on a loaded machine (bounded by the runner's watchdog)
-    while res.elapsed() < spec['budget'] or n < 6:
+    while keep_going(res, spec) or n < 6:
         hseed = rng.getrandbits(48)
         bad, info = run_history(sim, hseed, res, thorough=spec['tier'] == 'thorough')
         n += 1
